@@ -55,7 +55,8 @@ type c06CPU struct {
 
 // one operation; a recorded event carries every argument, so a trace segment is also a script
 type c06Op struct {
-	Op string `json:"op"`
+	Op      string `json:"op"`
+	Variant int    `json:"variant,omitempty"` // restart (C19): informer delivery order / duplicates
 	// reset: the node
 	Kind     string   `json:"kind"`
 	Dims     []int    `json:"dims"` // sockets, NUMA nodes per socket, cores per node, threads per core
@@ -314,6 +315,9 @@ func c06ApplyOp(rm ResourceManager, tom TopologyOptionsManager, node *corev1.Nod
 	panic("c06ApplyOp: unknown op " + o.Op)
 }
 
+// set by the C19 driver: random histories are cut by restarts
+var c06Restarts bool
+
 func c06Strategy(s string) schedulingconfig.NUMAAllocateStrategy {
 	if s == "" {
 		return schedulingconfig.NUMAMostAllocated
@@ -350,6 +354,8 @@ func (w *c06World) exec(o *c06Op) vu.Ev {
 		c06ApplyOp(w.rm, w.tom, w.node, o)
 		ev["obs"] = c06Project(w.rm.GetNodeAllocation(c06Node), w.topo.NumCPUs, w.numaIDs)
 		return ev
+	case "restart":
+		return w.c19Restart(o)
 	case "take":
 		// direct call of the accumulator on an explicit available set
 		allocated := NewCPUDetails()
@@ -797,6 +803,17 @@ func c06RandomHistory(rec *vu.Recorder, st *c06Stats, rng *rand.Rand, length int
 		return out
 	}
 	for i := 0; i < length; i++ {
+		if c06Restarts && rng.Intn(10) == 0 {
+			// C19: the scheduler restarts; the history goes on against the rebuilt cache
+			emit(&c06Op{Op: "restart", Variant: rng.Intn(1 << 16)})
+			for _, p := range sh.pods() { // what the fresh cache does not restore: allocations that hold nothing
+				if len(sh.cpus[p]) == 0 && len(sh.numa[p]) == 0 {
+					delete(sh.cpus, p)
+					delete(sh.numa, p)
+				}
+			}
+			continue
+		}
 		x := rng.Intn(100)
 		switch {
 		case x < 55: // allocate (committed as Reserve does, or a dry run with credits for CPUs of other pods)
